@@ -9,7 +9,7 @@
     refuted below with a witness.  DiskKVTest needs no such precondition; its lookups are specified for user
     keys, i.e. keys different from its internal applied-index key. *)
 From Drummer.Model Require Import Base KVCodec KVSM.
-From Drummer.Proofs Require Import KVSMProofs KVSMConcProofs.
+From Drummer.Proofs Require Import KVSMProofs KVSMConcProofs KVSMSlotProofs.
 
 (** the full statements *)
 Definition C15_lookup_full : Prop := forall sm,
@@ -104,6 +104,19 @@ Proof.
 Qed.
 Print Assumptions C15_concurrent_lookup_justified.
 
+(** several outstanding snapshot contexts and images per machine ([sop], [srun]: PrepareSnapshot / SaveSnapshot /
+    RecoverFromSnapshot carry a slot number; contexts of one replica prepared at the same or at different points, saved
+    in any order with updates in between, images installed in any order): (1) every lookup still returns the last value
+    written in the replica's update history; (2) every image stands for the state at ITS prepare point - that state is
+    the replay of the history captured by its context, and whoever recovers from the image gets exactly that state.
+    JSON machines: for scripts writing valid UTF-8 only (finding C15-json-utf8). *)
+Theorem C15_snapshot_slots : forall sm,
+  slots_spec (kvtest_m sm) sm (utf8_sscript sm) any_key /\
+  slots_spec (ckv_m sm) sm (utf8_sscript sm) any_key /\
+  slots_spec (disk_m sm) sm any_sscript user_key.
+Proof. intros sm. split; [apply json_slots|split; [apply json_slots|apply disk_slots]]. Qed.
+Print Assumptions C15_snapshot_slots.
+
 (** non-vacuity: concrete scripts with updates (empty value, empty key, same key rewritten), snapshot hand-over
     0 -> 1, restart; they run without panic, satisfy the preconditions, and give the expected answers *)
 Definition ea_b : bytes := [0; 1; 97; 1; 1; 98; 127].      (* "a" := "b" *)
@@ -173,6 +186,22 @@ Example C15_ex_prefix_views :
               = [Some [98]; Some [122]; Some [98]; Some [98]]
   | None => False
   end /\ utf8_script 16777216 (pre ++ [OUpdate 0 (firstn 1 batch)]).
+Proof. vm_compute. repeat split. Qed.
+
+(* two contexts prepared at the same point, the first saved, an update, the second saved: both images are the state at
+   the prepare point ("a" = b), the source has moved on ("a" = z); a third context prepared later holds z *)
+Definition ex_slots : list sop :=
+  [SUpdate 0 [(1, ea_b)]; SPrepare 0 1; SPrepare 0 2; SSave 0 1; SUpdate 0 [(2, ea_z)]; SPrepare 0 3; SSave 0 2;
+   SUpdate 0 [(3, ec_)]; SSave 0 3; SRecover 1 0 2; SRecover 2 0 1; SRecover 3 0 3].
+Definition sran (M : machine) (ops : list sop) (r : N) (k : bytes) : option bytes :=
+  match srun M ops with Some x => Some (m_lookup M (s_st M x r) k) | None => None end.
+Example C15_ex_slots :
+  utf8_sscript 16777216 ex_slots /\
+  sran (ckv_m 16777216) ex_slots 1 [97] = Some [98] /\ sran (ckv_m 16777216) ex_slots 2 [97] = Some [98] /\
+  sran (ckv_m 16777216) ex_slots 3 [97] = Some [122] /\ sran (ckv_m 16777216) ex_slots 0 [97] = Some [122] /\
+  sran (disk_m 16777216) ex_slots 1 [97] = Some [98] /\ sran (disk_m 16777216) ex_slots 2 [97] = Some [98] /\
+  sran (disk_m 16777216) ex_slots 3 [97] = Some [122] /\
+  h_sn (shist_sys true ex_slots) 0 2 = Some [(1, ea_b)] /\ h_sn (shist_sys true ex_slots) 0 3 = Some [(1, ea_b); (2, ea_z)].
 Proof. vm_compute. repeat split. Qed.
 
 (* the witness of the finding is a valid input of the model: it runs, and it is outside the carve-out *)
